@@ -383,6 +383,16 @@ int main(int argc, char **argv)
   char cfgp[4200];
   snprintf(cfgp, sizeof cfgp, "%s/vc.cfg", exe);
   FILE *f = fopen(cfgp, "r");
+  if (!f) {
+    // the configuration path may exceed PATH_MAX when the executable sits in a very deep
+    // directory: go there and open it by its relative name
+    int cwdfd = open(".", O_RDONLY | O_DIRECTORY | O_CLOEXEC);
+    if (cwdfd >= 0 && chdir(exe) == 0) {
+      f = fopen("vc.cfg", "r");
+      if (fchdir(cwdfd) < 0) _exit(111);
+    }
+    if (cwdfd >= 0) close(cwdfd);
+  }
   if (!f) _exit(111);
   static char sock[512], flags[512], tag[128];
   if (!fgets(sock, sizeof sock, f)) _exit(111);
